@@ -512,6 +512,9 @@ def search_requests(rng, n):
     if style == 8:  # phase boundaries of the budget
       r["budget"] = rng.choice([r["n_obs"], r["n_obs"] + 1, int(r["n_obs"] / 0.15) + 1, int(r["n_obs"] / 0.75), 5 * r["n_obs"], int(r["n_obs"] / 0.4)])
     reqs.append(r)
+  for j in range(max(2, n // 80)):   # the model-based endpoints on a thin polytope between two opposing constraints (their pretest / start points come from the padding)
+    reqs.append(U.gen_request(rng, ["gp", "search"][j % 2], n_obs=rng.randint(8, 12), max_dim=3, constraints="thin", discrete_only=False,
+                              num_to_sample=rng.choice([1, 2]), npend=0, ntask=0))
   return reqs
 
 
@@ -565,6 +568,14 @@ def cheap_requests(rng, n):
                       num_to_sample=rng.choice([60, 120]), npend=0, ntask=0, failp=0.0)
     r["comps"], r["cons"], r["priors"] = comps, cons, None
     r["budget"] = 50 * r["n_obs"]      # initialisation phase: the model-free draws, decoded point by point
+    reqs.append(r)
+  for j in range(max(9, n // 40)):
+    # a THIN polytope between two opposing double-typed constraints (U.thin_domain): rejection sampling gives up or finds only part of the points,
+    # the rows come from the hit-and-run padding / the forced hit-and-run branch - in every phase of the model-free and Parzen endpoints (the rows of
+    # the random endpoint, of the initialisation phase and of the duplicate replacement / top-up go straight to the caller)
+    r = U.gen_request(rng, ["random", "spe", "spe_search"][j % 3], n_obs=rng.randint(10, 30), constraints="thin", discrete_only=False,
+                      num_to_sample=rng.choice([2, 3, 5, 8]), npend=rng.choice([0, 0, 2]), ntask=0 if j % 3 == 2 else rng.choice([0, 0, 2]), failp=rng.choice([0.0, 0.2]))
+    r["budget"] = max(1, int(r["n_obs"] * phases[(j // 3) % 6] + rng.choice([0, 1])))
     reqs.append(r)
   for j in range(max(4, n // 90)):
     # multitask request on a thin int-constrained band: fewer points than requested may come back - one task cost per RETURNED point
@@ -630,7 +641,7 @@ LEVEL_TEXT = ("Coq theorems on an executable model of the tail of each of the fi
               "positive, summing to one, monotone in the cost. The model is tied to the code by in-Coq differential runs of the funnel "
               "functions, by the real views with a stubbed optimiser, and by real endpoint calls whose responses are decided by resp_okb")
 LEVEL_NOTE = ("relaxed_ok of the optimiser / sampler output is discharged by composition with C07 / C08 (Props/C01_composed.v; constraints with >= 2 non-zero weights, an interior point on constrained domains); the "
-              "hit-and-run sampler branches and the whole-endpoint glue functions are tied to the code through their parts, constrained optimiser runs through the specification with 1e-9; range contracts of the random libraries are hypotheses; float "
+              "hit-and-run sampler branches are tied at their call into the sampler (what is handed over and what is done with the result; the samplers themselves are C08's) and the whole-endpoint glue functions through their parts, constrained optimiser runs through the specification with 1e-9; range contracts of the random libraries are hypotheses; float "
               "rounding at constraint faces is not modelled; the distribution of the softmax draw is not modelled beyond its parameters; "
               "one known finding (int-constrained short batch); the SPE-search endpoint without threshold violators, a known finding of the earlier rounds, is repaired "
               "(fix: SPE search forces the threshold split only when some observation violates a threshold) and its witness is replayed from the corpus")
@@ -646,3 +657,6 @@ LEVEL_TEXT += ("; END-TO-END composition (Props/C01_composed.v): the optimiser /
                "every draw stream, so that the random, GP, GP-multitask, Parzen, search and Parzen-search endpoint models return admissible points with the count rule with no hypothesis on the optimisers' output; "
                "the glue is tied to the real vectorized_acquisition_optimization / constant-liar / qEI routines, the real one-hot domain and samplers and the real draw_samples by an exact in-Coq correspondence")
 TECHNIQUE += " + composition of the C07/C08 models into end-to-end endpoint theorems"
+LEVEL_TEXT += ("; the two constrained branches of the one-hot sampler are tied at the call they make into aux/samplers.py (KSampleCall: the half-space rows - constraint rows and both "
+               "bound rows of every coordinate -, the start point and the box handed over, the overwritten unconstrained columns, exact); the searcher's requests include THIN "
+               "polytopes between two opposing double-typed constraints, on which rejection sampling gives up and every row comes from the hit-and-run padding / forced hit-and-run")
